@@ -82,7 +82,7 @@ MANIFEST = {
             "border) and on every instance of every observed evaluate_policy call (7 methods x 4 envs x loader batch sizes "
             "dividing or not): isometry and cost preservation per copy, identity first copy, reported reward = independent "
             "objective of the returned actions on the original instance = maximum over the instance's own candidate rollouts "
-            "tapped in the same call. Exploration over coordinate sets x factors x methods x loader chunkings.",
+            "tapped in the same call. Exploration over coordinate sets x factors x methods x loader chunkings. Also: envs with constructor-dependent dynamics / objectives and state-read rewards (mTSP sum, MDCPDP, PDP start-at-depot, SDVRP, SVRP, MTVRP, SPCTSP), evaluator objects reused across data sets.",
     "note": "first_aug_identity=False is run as a separately labelled configuration.",
     "technique": "runtime monitoring: isometry/cost invariants on every augmented copy + tap on the policy call inside evaluate_policy with independent re-scoring of all candidates",
     "design_ref": "DESIGN.md section 4 / C15",
